@@ -367,8 +367,8 @@ func vpHistory(t *testing.T, penc, eenc *json.Encoder, hist int, rng *rand.Rand,
 		// a batch of identical outputs: the transactions that later spend them one by one have the same size and the same
 		// fee, so their order in a block is decided by the hash tie-break alone
 		nTies := 0
-		if hist%3 == 0 || hist == 1 {
-			nTies = 14 + rng.Intn(6)
+		if (hist%3 == 0 || hist == 1) && !top {
+			nTies = 14 + rng.Intn(6) // (not at the top of the range: all of the genesis hours are spoken for there)
 		}
 		last := len(txn.Out) - 1
 		for k := 0; k < nTies && txn.Out[last].Coins > 4e6; k++ {
